@@ -13,7 +13,7 @@ pub fn def() -> PropDef {
     PropDef {
         info: PropInfo {
             id: "C09",
-            rule: "case = VM kind (no-data, raw, metadata, fixed-metadata with a generated pair of non-overlapping offsets from {0,8,16,0x40,0x50,4088,32752,100000,1 MiB} in either order / adjacent / far apart) x a sequence of 1-4 packets of lengths {0,1,7,8,9,64,1500,random} placed at different addresses x a generated schedule of (engine, packet) executions over interpreter, x86-64 JIT and Cranelift on the SAME VM object; for the fixed-metadata VM, in half of the cases, the probe is re-loaded half way through with set_program() and another pair of offsets (swapped / only the lower one moved / both moved). Probe programs: r1 at entry; r10 at entry; byte stores/loads at [r10-1] and [r10-512]; ldabsb/ldindb of the first packet byte; for the fixed-metadata VM *(r1+data_off), and *(r1+end_off) - *(r1+data_off), each read by the program itself and, in load-free programs, by a registered helper that is handed r1; for raw / metadata VMs the word a helper reads at *(r1). Oracle from the real addresses: r1 = metadata buffer / packet / 0 as documented; the stack region is disjoint from packet and metadata; packet loads return packet bytes; fixed VM: start pointer == address of the first packet byte when the packet is non-empty and end - start == length always, on every execution of the schedule and identically on the three engines. Non-trivial = fixed-metadata case with a non-empty packet, or a second-or-later execution; distinct by hash of (kind, offsets, lengths, schedule).",
+            rule: "case = VM kind (no-data, raw, metadata, fixed-metadata with a generated pair of non-overlapping offsets from {0,8,16,0x40,0x50,4088,32752,100000,1 MiB} in either order / adjacent / far apart) x a sequence of 1-4 packets of lengths {0,1,7,8,9,64,1500,random} placed at different addresses x a generated schedule of (engine, packet) executions over interpreter, x86-64 JIT and Cranelift on the SAME VM object; for the fixed-metadata VM, in half of the cases, the probe is re-loaded half way through with set_program() and another pair of offsets (swapped / only the lower one moved / both moved); after a 'lower one moved' reload the vacated slot must read 0, as on a fresh VM. Probe programs: r1 at entry; r10 at entry; byte stores/loads at [r10-1] and [r10-512]; ldabsb/ldindb of the first packet byte; for the fixed-metadata VM *(r1+data_off), and *(r1+end_off) - *(r1+data_off), each read by the program itself and, in load-free programs, by a registered helper that is handed r1; for raw / metadata VMs the word a helper reads at *(r1). Oracle from the real addresses: r1 = metadata buffer / packet / 0 as documented; the stack region is disjoint from packet and metadata; packet loads return packet bytes; fixed VM: start pointer == address of the first packet byte when the packet is non-empty and end - start == length always, on every execution of the schedule and identically on the three engines. Non-trivial = fixed-metadata case with a non-empty packet, or a second-or-later execution; distinct by hash of (kind, offsets, lengths, schedule).",
             assumptions: &["for an empty packet only end - start == 0 is required of the fixed-metadata VM (DESIGN 6.2)", "out-of-stack accesses are covered by C02/C11, not here"],
         },
         run,
@@ -149,6 +149,8 @@ fn programs(c: &C9Case) -> Vec<(u8, Vec<u8>)> {
 }
 
 fn programs_with(c: &C9Case, data_off: u32, end_off: u32) -> Vec<(u8, Vec<u8>)> {
+    // the slot that holds a packet pointer before a "lower offset moved" reload and nothing after it
+    let vacated = if c.reload % 4 == 2 && reloaded_offsets(c) != (c.data_off, c.end_off) { Some(c.data_off.min(c.end_off)) } else { None };
     let c = &C9Case { data_off, end_off, ..c.clone() };
     let exit = Insn::new(EXIT, 0, 0, 0, 0);
     let mut v = Vec::new();
@@ -192,6 +194,15 @@ fn programs_with(c: &C9Case, data_off: u32, end_off: u32) -> Vec<(u8, Vec<u8>)> 
             8u8,
             encode_prog(&[movr(7, 1), mov(2, c.end_off), call, movr(6, 0), movr(1, 7), mov(2, c.data_off), call, Insn::new(alu_opc(true, ALU_SUB, true), 6, 0, 0, 0), movr(0, 6), exit]),
         ));
+    }
+    if let (VmKind::Fixed { .. }, Some(slot)) = (kind, vacated) {
+        // after the reload this slot is not one of the two offsets any more: a VM re-loaded with
+        // other offsets must look like a fresh one there (zero), not show what an earlier
+        // execution published
+        let mut p = Vec::new();
+        ld_at(&mut p, 0, slot);
+        p.push(exit);
+        v.push((10u8, encode_prog(&p)));
     }
     if matches!(kind, VmKind::Raw | VmKind::Mbuff { .. }) {
         // what a helper sees at *(r1): the first eight bytes of the packet / metadata buffer
@@ -243,6 +254,7 @@ unsafe fn child(mem: &Mem9, c: &C9Case) {
         }
         let mut jit_ok = None;
         let mut cl_ok = None;
+        let mut reloaded = false;
         let reload_at = if matches!(kind, VmKind::Fixed { .. }) && c.reload % 4 != 0 && id >= 5 { Some(c.schedule.len() / 2) } else { None };
         for (k, (e, pi)) in c.schedule.iter().enumerate() {
             if reload_at == Some(k) {
@@ -257,6 +269,7 @@ unsafe fn child(mem: &Mem9, c: &C9Case) {
                 // compiled code belongs to the old program
                 jit_ok = None;
                 cl_ok = None;
+                reloaded = true;
             }
             let engine = ENGINES[*e as usize % 3];
             let (len, _) = c.pkts[*pi as usize];
@@ -291,7 +304,7 @@ unsafe fn child(mem: &Mem9, c: &C9Case) {
                 Err(_) => (3, 0),
             };
             if n < sh.recs.len() {
-                sh.recs[n] = Rec { status, prog: id, engine: *e % 3, pkt: *pi, _pad: 0, value };
+                sh.recs[n] = Rec { status, prog: id, engine: *e % 3, pkt: *pi, _pad: reloaded as u8, value };
                 n += 1;
                 sh.n = n as u32;
             }
@@ -402,6 +415,11 @@ pub fn check(mem: &Mem9, c: &C9Case) -> Verdict {
                 5 | 7 => {
                     if len > 0 && v != addr {
                         return fail("fixed-mbuff-start-pointer", format!("*(r1+data_offset) = {v:#x} ({}), the first packet byte is at {addr:#x}", if r.prog == 7 { "read by a helper that was passed r1; the program has no load instruction" } else { "read by the program" }));
+                    }
+                }
+                10 => {
+                    if r._pad == 1 && v != 0 {
+                        return fail("fixed-mbuff-stale-slot", format!("after set_program() with other offsets the slot that used to hold a packet pointer reads {v:#x}; a VM created with the new offsets has 0 there"));
                     }
                 }
                 6 | 8 => {
